@@ -231,6 +231,7 @@ type ExecCase struct {
 	Goroutines int     `json:"goroutines"`
 	Rounds     int     `json:"rounds"`
 	Native     bool    `json:"native"`
+	Shell      bool    `json:"shell"` // the program starts processes
 }
 
 var templates = []string{
@@ -247,6 +248,10 @@ var templates = []string{
 	"{ print sprintf(\"%s-%s\", tolower($0), index($0, \"b\")) ; sum += $1 } END { print sum, sum / (NR ? NR : 1) }",
 	"BEGIN { while ((getline line) > 0) { nl++; if (line ~ /^#/) continue; last = line } print \"read\", nl, last }",
 	"{ print nat_add($1, 2), nat_len($0), zz_last($1, \"q\") }",
+	// processes: every execution builds its own command lines from its own input
+	"NF { cmd = \"echo sh-\" NR \"-\" length($0) \"-\" NF; cmd | getline r; close(cmd); print \"got\", r }",
+	"NR <= 3 { system(\"echo sys-\" NR \"-\" length($0)) }",
+	"NR == 1 { print \"piped \" length($0) | \"cat\"; close(\"cat\") }",
 }
 
 var inputLines = []string{"a b c", "aab x", "12 abc 7", "boom", "", "3.5,4 5", "x y z x", "# comment", "hello world", "aaab", "007", "1e3 b"}
@@ -267,6 +272,9 @@ func genExec(t *rapid.T) ExecCase {
 		}
 		if strings.Contains(tm, "nat_") {
 			c.Native = true
+		}
+		if strings.Contains(tm, "echo s") || strings.Contains(tm, "\"cat\"") {
+			c.Shell = true
 		}
 		parts = append(parts, strings.ReplaceAll(tm, "%d", fmt.Sprint(i)))
 	}
@@ -301,8 +309,8 @@ type result struct {
 
 func execOnce(prog *parser.Program, input string, native bool, cancelled bool) result {
 	var out bytes.Buffer
-	cfg := &interp.Config{Stdin: strings.NewReader(input), Output: &out, Error: &out, Argv0: "goawk", Environ: []string{"A", "1"},
-		NoExec: true, NoFileWrites: true, NoFileReads: true}
+	cfg := &interp.Config{Stdin: strings.NewReader(input), Output: &out, Error: &out, Argv0: "goawk", Environ: []string{"A", "1", "PATH", "/usr/bin:/bin"},
+		NoExec: !strings.Contains(prog.String(), "echo s") && !strings.Contains(prog.String(), "\"cat\""), NoFileWrites: true, NoFileReads: true}
 	if native {
 		cfg.Funcs = nativeFuncs
 	}
@@ -369,6 +377,12 @@ func runExec(x *h.Ctx, c ExecCase) string {
 		close(start)
 		wg.Wait()
 		for g := range got {
+			if strings.Contains(got[g].out, "WaitDelay expired") || strings.Contains(want[g%len(c.Inputs)].out, "WaitDelay expired") {
+				// goawk gives the goroutine copying a child's output 250 ms after the child exits; on a saturated
+				// machine that can expire. Time is not a correctness signal: such an execution is not compared.
+				x.Class("waitdelay-expired-not-compared")
+				continue
+			}
 			if got[g] != want[g%len(c.Inputs)] {
 				return fmt.Sprintf("concurrent execution %d of %d gave a result different from the sequential one\nsequential: %+v\nconcurrent: %+v\nsource:\n%s\ninput: %q", g, c.Goroutines, want[g%len(c.Inputs)], got[g], c.Src, c.Inputs[g%len(c.Inputs)])
 			}
